@@ -324,6 +324,14 @@ fn builder_script(args: &[String]) {
                 "ret" => format!("{:?}", b.ret().map_err(|e| format!("{:?}", e))),
                 "br" => format!("{:?}", b.branch(7).map_err(|e| format!("{:?}", e))),
                 "kill" => format!("{:?}", b.kill().map_err(|e| format!("{:?}", e))),
+                "mesh" => format!("{:?}", b.emit_mesh_tasks_ext(7, 7, 7, None).map_err(|e| format!("{:?}", e))),
+                "terminv" => format!("{:?}", b.terminate_invocation().map_err(|e| format!("{:?}", e))),
+                "unreach" => format!("{:?}", b.unreachable().map_err(|e| format!("{:?}", e))),
+                "ignint" => format!("{:?}", b.ignore_intersection_khr().map_err(|e| format!("{:?}", e))),
+                "termray" => format!("{:?}", b.terminate_ray_khr().map_err(|e| format!("{:?}", e))),
+                "retval" => format!("{:?}", b.ret_value(7).map_err(|e| format!("{:?}", e))),
+                "ins_mesh" => format!("{:?}", b.insert_emit_mesh_tasks_ext(InsertPoint::Begin, 7, 7, 7, None).map_err(|e| format!("{:?}", e))),
+                "ins_terminv" => format!("{:?}", b.insert_terminate_invocation(InsertPoint::Begin).map_err(|e| format!("{:?}", e))),
                 "lifetime" => format!("{:?}", b.lifetime_start(7, 4).map_err(|e| format!("{:?}", e))),
                 "lifetime_stop" => format!("{:?}", b.lifetime_stop(7, 4).map_err(|e| format!("{:?}", e))),
                 "demote" => format!("{:?}", b.demote_to_helper_invocation().map_err(|e| format!("{:?}", e))),
@@ -397,6 +405,9 @@ fn consumer_script(args: &[String]) {
             match a.as_str() {
                 "stop" => ParseAction::Stop,
                 "error" => ParseAction::Error(Box::new(MyErr(me as u32))),
+                // the consumer's own error value may be of ANY type, including the parser's own state type
+                "error_state_stop" => ParseAction::Error(Box::new(rspirv::binary::ParseState::ConsumerStopRequested)),
+                "error_state_complete" => ParseAction::Error(Box::new(rspirv::binary::ParseState::Complete)),
                 _ => ParseAction::Continue,
             }
         }
@@ -445,7 +456,18 @@ fn parse_batch() {
                         // C01: the header carries the input's version word and id bound
                         let inh: Vec<u32> = bytes[..20.min(bytes.len())].chunks_exact(4).map(|c| u32::from_le_bytes([c[0], c[1], c[2], c[3]])).collect();
                         let hdr = inh.len() == 5 && a.len() >= 5 && a[0] == inh[0] && a[1] == inh[1] && a[3] == inh[3];
-                        println!("Ok {} rt={} same={} hdr={} words={}", m.all_inst_iter().count(), same as u8, same_insts as u8, hdr as u8, words.join(","));
+                        // C01: relative order preserved: for every opcode (except OpLine / OpNoLine / OpMemoryModel, which the statement
+                        // exempts) the instructions with that opcode appear in the same order in the input and in the output
+                        let seq = |ws: &[u32]| -> Vec<Vec<u32>> { let mut out = vec![]; let mut i = 0; while i < ws.len() { let wc = (ws[i] >> 16) as usize; if wc == 0 || i + wc > ws.len() { break; } out.push(ws[i..i + wc].to_vec()); i += wc; } out };
+                        let (si, so) = (seq(&inw), seq(&a[5.min(a.len())..]));
+                        let mut ord = true;
+                        for opc in si.iter().map(|w| w[0] & 0xffff).collect::<std::collections::BTreeSet<u32>>() {
+                            if opc == 8 || opc == 317 || opc == 14 { continue; }
+                            let fi: Vec<&Vec<u32>> = si.iter().filter(|w| w[0] & 0xffff == opc).collect();
+                            let fo: Vec<&Vec<u32>> = so.iter().filter(|w| w[0] & 0xffff == opc).collect();
+                            if fi != fo { ord = false; }
+                        }
+                        println!("Ok {} rt={} same={} hdr={} ord={} words={}", m.all_inst_iter().count(), same as u8, same_insts as u8, hdr as u8, ord as u8, words.join(","));
                     }
                     Err(_) => println!("PANIC assemble/disassemble"),
                 }
@@ -751,6 +773,18 @@ fn dedup_sweep() {
         let r2 = b.type_struct_id(Some(78), vec![f]);
         let n2 = b.module_ref().types_global_values.len();
         if r != 77 || r2 != 78 || n2 != n1 + 2 { println!("MISMATCH explicit after {}: ids {} {}, declarations {} -> {}", la, r, r2, n1, n2); }
+        // an explicit request always appends, even when an identical declaration with the very same id exists
+        let p0 = b.type_pointer(None, spirv::StorageClass::Function, f);
+        let n3 = b.module_ref().types_global_values.len();
+        let p1 = b.type_pointer(Some(p0), spirv::StorageClass::Function, f);
+        let p2 = b.type_pointer(Some(p0), spirv::StorageClass::Function, f);
+        let n4 = b.module_ref().types_global_values.len();
+        if p1 != p0 || p2 != p0 || n4 != n3 + 2 { println!("MISMATCH explicit type_pointer with the id of an identical declaration after {}: ids {} {} {}, declarations {} -> {}", la, p0, p1, p2, n3, n4); }
+        let v0 = b.type_vector(f, 4);
+        let n5 = b.module_ref().types_global_values.len();
+        let v1 = b.type_vector_id(Some(v0), f, 4);
+        let n6 = b.module_ref().types_global_values.len();
+        if v1 != v0 || n6 != n5 + 1 { println!("MISMATCH explicit type_vector_id with the id of an identical declaration after {}: ids {} {}, declarations {} -> {}", la, v0, v1, n5, n6); }
     }
     println!("checked pairs {}", checked);
 }
@@ -771,6 +805,19 @@ fn storage_batch() {
         }
     }
     std::panic::set_hook(Box::new(|_| {}));
+    // long history: 70 000 appends, every token keeps its value, indices stay dense, fetch finds the last one
+    {
+        let mut st: rspirv::sr::storage::Storage<u32> = rspirv::sr::storage::Storage::new();
+        let mut toks = Vec::new();
+        for i in 0..70_000u32 { toks.push(st.append(i)); }
+        let mut bad = 0;
+        for (i, t) in toks.iter().enumerate() {
+            if t.index() as usize != i || st[*t] != i as u32 { bad += 1; if bad <= 3 { println!("LONG MISMATCH append #{}: token index {} value {}", i, t.index(), st[*t]); } }
+        }
+        let t = st.fetch_or_append(69_999);
+        if t.index() as usize != 69_999 { println!("LONG MISMATCH fetch_or_append(69999) -> token {}", t.index()); bad += 1; }
+        println!("LONG checked 70000 appends, {} mismatches", bad);
+    }
     for line in std::io::stdin().lock().lines() {
         let line = line.unwrap();
         let r = std::panic::catch_unwind(|| {
@@ -791,6 +838,29 @@ fn storage_batch() {
     }
 }
 
+/// parse-only: stdin lines of hex BYTES; the real parser with a consumer that accepts everything (no loader):
+/// `Ok <n instructions> <operand count of the last instruction>` | `Err <Debug>` | `PANIC`
+fn parse_only() {
+    use std::io::BufRead;
+    struct C(usize, usize);
+    impl rspirv::binary::Consumer for C {
+        fn initialize(&mut self) -> rspirv::binary::ParseAction { rspirv::binary::ParseAction::Continue }
+        fn finalize(&mut self) -> rspirv::binary::ParseAction { rspirv::binary::ParseAction::Continue }
+        fn consume_header(&mut self, _h: rspirv::dr::ModuleHeader) -> rspirv::binary::ParseAction { rspirv::binary::ParseAction::Continue }
+        fn consume_instruction(&mut self, i: rspirv::dr::Instruction) -> rspirv::binary::ParseAction { self.0 += 1; self.1 = i.operands.len(); rspirv::binary::ParseAction::Continue }
+    }
+    std::panic::set_hook(Box::new(|_| {}));
+    for line in std::io::stdin().lock().lines() {
+        let bytes = parse_hex_bytes(&line.unwrap());
+        let r = std::panic::catch_unwind(|| { let mut c = C(0, 0); let r = rspirv::binary::parse_bytes(&bytes, &mut c); (r.map_err(|e| format!("{:?}", e)), c.0, c.1) });
+        match r {
+            Ok((Ok(()), n, k)) => println!("Ok {} {}", n, k),
+            Ok((Err(e), _, _)) => println!("Err {}", e.replace(' ', "").chars().take(100).collect::<String>()),
+            Err(_) => println!("PANIC"),
+        }
+    }
+}
+
 fn main() {
     let args: Vec<String> = env::args().collect();
     match args.get(1).map(|s| s.as_str()) {
@@ -806,6 +876,7 @@ fn main() {
         Some("builder-script") => builder_script(&args[2..]),
         Some("consumer-script") => consumer_script(&args[2..]),
         Some("parse-batch") => parse_batch(),
+        Some("parse-only") => parse_only(),
         Some("reflect-sweep") => reflect_sweep(),
         Some("traversal-sweep") => traversal_sweep(),
         Some("dedup-sweep") => dedup_sweep(),
